@@ -24,9 +24,9 @@ run_demo() {
     return $rc
   fi
   cp $D/$demo_file $W/$demo_dir/zz_seed_demo_test.go
-  (cd $W && go test -vet=off -count=1 -run 'Demo|demo' ./$demo_dir/ 2>&1 | tail -15)
+  (cd $W && go test -vet=off -count=1 -run 'Demo|demo|Seed' ./$demo_dir/ 2>&1 | tail -15)
   rc=${PIPESTATUS[0]}
-  (cd $W && go test -vet=off -count=1 -run 'Demo|demo' ./$demo_dir/ >/dev/null 2>&1); rc=$?
+  (cd $W && go test -vet=off -count=1 -run 'Demo|demo|Seed' ./$demo_dir/ >/dev/null 2>&1); rc=$?
   rm -f $W/$demo_dir/zz_seed_demo_test.go
   return $rc
 }
@@ -57,8 +57,11 @@ if ! git apply --check $PATCH 2>>$LOG; then say "patch does not apply to /repo H
 git apply -3 $PATCH >> $LOG 2>&1 || { say "APPLY-TO-REPO FAILED"; git reset -q --hard HEAD; exit 3; }
 git reset -q
 cd /verif
-out=$(bin/vcheck -prop $CP -no-evidence -replaydir /tmp/seed/$P/out/$K/replay 2>&1); rc=$?
+cmd=$(python3 -c "
+import json;m=json.load(open('/verif/MANIFEST.json'));print([c['quick_cmd'] for c in m['checks'] if c['property_id']=='$CP'][0])")
+out=$(bash -c "$cmd" 2>&1); rc=$?
 echo "$out" | grep -E "^VIOLATION|^KNOWN|^C[0-9]+ " | cut -c1-400 >> $LOG
 git -C /repo checkout -q -- . ; git -C /repo clean -fdq
+git -C /verif checkout -q -- evidence 2>/dev/null
 say "check rc=$rc"
 if [ $rc -eq 1 ]; then say "DETECTED=yes"; else say "DETECTED=no"; fi
